@@ -236,9 +236,14 @@ class FakeFS(Model):
         dirs = lambda: {p_.rsplit('/', 1)[0] for p_ in fs.files}
         if cwd:
             extra['cwd'] = cwd
+        def getsize(q):
+            if q not in fs.files:
+                raise FileNotFoundError(2, 'No such file or directory', q)
+            c = fs.files[q]
+            return len(c if isinstance(c, (bytes, bytearray)) else str(c).encode('utf-8'))
         return pure_os(name='posix', remove=remove, unlink=remove,
                        path_exists=lambda q: q in fs.files or q.rstrip('/') in dirs(), path_isfile=lambda q: q in fs.files,
-                       path_isdir=lambda q: q.rstrip('/') in dirs() and q not in fs.files, **extra)
+                       path_isdir=lambda q: q.rstrip('/') in dirs() and q not in fs.files, path_getsize=getsize, **extra)
 
 
 def pure_sys():
@@ -719,6 +724,19 @@ class Interp:
                     and o[1].target in self.prog.classes:
                 k_ = self.prog.classes[o[1].target]
                 return k_.mod.name if e.attr == '__module__' else k_.name
+            if isinstance(o, tuple) and len(o) == 2 and o[0] == '#sym' and o[1].kind == 'class' and e.attr == '__dict__' and o[1].target in self.prog.classes:
+                # the class's own namespace: what its body binds (constants evaluated), with the entries every class has
+                k_ = self.prog.classes[o[1].target]
+                d_ = {'__module__': k_.mod.name}
+                for b in k_.node.body:
+                    if isinstance(b, ast.Assign):
+                        for t in b.targets:
+                            if isinstance(t, ast.Name):
+                                d_[t.id] = self.expr(b.value, self._class_env(k_, b), k_.mod)
+                    elif isinstance(b, ast.FunctionDef):
+                        d_[b.name] = ('#sym', self.prog.resolve_expr(k_.mod, ast.Attribute(ast.Name(k_.name, ast.Load()), b.name, ast.Load())) or o[1])
+                d_['__doc__'] = ast.get_docstring(k_.node)
+                return types.MappingProxyType(d_)
             if isinstance(o, tuple) and len(o) == 2 and o[0] == '#classof' and e.attr == '__name__':
                 return o[1].name
             if isinstance(o, tuple) and len(o) == 2 and o[0] == '#classof' and e.attr == '__module__':
